@@ -83,13 +83,18 @@ fn p_owned_clone_clone() {
 //@ prefix=p_raw kind=property clause=a caller's waker that is NOT Arc-based (hand-written RawWaker vtable, arbitrary data word incl. null — e.g. a task id): every clone taken on the foreign side's behalf is released exactly once through the waker's own drop function, wakes reach the waker's own wake functions with the original data word, once each
 static mut RW_CLONES: u32 = 0;
 static mut RW_DROPS: u32 = 0;
+static mut RW_ORIG_DROPS: u32 = 0;
 static mut RW_WAKES: u32 = 0;
 static mut RW_DATA_OK: bool = true;
 static mut RW_DATA: usize = 0;
-unsafe fn rw_clone(p: *const ()) -> core::task::RawWaker { RW_CLONES += 1; RW_DATA_OK &= p as usize == RW_DATA; core::task::RawWaker::new(p, &RW_VT) }
-unsafe fn rw_wake(p: *const ()) { RW_WAKES += 1; RW_DROPS += 1; RW_DATA_OK &= p as usize == RW_DATA; }
-unsafe fn rw_wake_by_ref(p: *const ()) { RW_WAKES += 1; RW_DATA_OK &= p as usize == RW_DATA; }
-unsafe fn rw_drop(p: *const ()) { RW_DROPS += 1; RW_DATA_OK &= p as usize == RW_DATA; }
+/// every clone of this waker has its OWN identity (data word ^ CL), as per-clone handles have
+const CL: usize = 0x40;
+unsafe fn rw_is_clone(p: *const ()) -> bool { p as usize == RW_DATA ^ CL }
+unsafe fn rw_known(p: *const ()) -> bool { p as usize == RW_DATA || rw_is_clone(p) }
+unsafe fn rw_clone(p: *const ()) -> core::task::RawWaker { RW_CLONES += 1; RW_DATA_OK &= rw_known(p); core::task::RawWaker::new((RW_DATA ^ CL) as *const (), &RW_VT) }
+unsafe fn rw_wake(p: *const ()) { RW_WAKES += 1; RW_DATA_OK &= rw_known(p); if rw_is_clone(p) { RW_DROPS += 1 } else { RW_ORIG_DROPS += 1 } }
+unsafe fn rw_wake_by_ref(p: *const ()) { RW_WAKES += 1; RW_DATA_OK &= rw_known(p); }
+unsafe fn rw_drop(p: *const ()) { RW_DATA_OK &= rw_known(p); if rw_is_clone(p) { RW_DROPS += 1 } else { RW_ORIG_DROPS += 1 } }
 static RW_VT: core::task::RawWakerVTable = core::task::RawWakerVTable::new(rw_clone, rw_wake, rw_wake_by_ref, rw_drop);
 #[kani::proof]
 #[kani::unwind(3)]
@@ -100,24 +105,26 @@ fn p_raw_vtable_waker() {
     let c = CRefWaker::from(&waker);
     let retained = c.with_waker(|w| {
         w.wake_by_ref();
-        assert!(unsafe { RW_WAKES } == 1 && unsafe { RW_CLONES } == 0, "C19 wake_by_ref on the borrowed view wakes once and takes no clone");
+        assert!(unsafe { RW_WAKES } == 1, "C19 wake_by_ref on the borrowed view wakes once");
         let f = w.clone();
-        assert!(unsafe { RW_CLONES } == 1, "C19 cloning the borrowed view takes one clone of the original");
+        assert!(unsafe { RW_CLONES } >= 1, "C19 an owned foreign-side waker holds a clone of the original");
         let g = f.clone();
         g.wake_by_ref();
         assert!(unsafe { RW_WAKES } == 2, "C19 wake_by_ref on an owned waker wakes once");
         drop(g);
         f
     });
-    assert!(unsafe { RW_DROPS } == 0, "C19 a retained waker keeps its clone of the original");
+    assert!(unsafe { RW_CLONES } > unsafe { RW_DROPS }, "C19 a retained waker keeps a clone of the original");
+    assert!(unsafe { RW_ORIG_DROPS } == 0, "C19 the foreign side never releases the caller's own waker");
     let by_value: bool = kani::any();
     if by_value { retained.wake(); assert!(unsafe { RW_WAKES } == 3, "C19 wake by value wakes the original once"); } else { drop(retained); assert!(unsafe { RW_WAKES } == 2, "C19 drop does not wake"); }
-    assert!(unsafe { RW_DROPS } == unsafe { RW_CLONES }, "C19 every clone taken on the foreign side's behalf is released exactly once (also for a waker whose data word is null)");
-    assert!(unsafe { RW_DATA_OK }, "C19 the original's functions are called with the original's data word");
+    assert!(unsafe { RW_DROPS } == unsafe { RW_CLONES }, "C19 every clone taken on the foreign side's behalf is released exactly once (the CLONE itself, also when clones have their own identity or a null data word)");
+    assert!(unsafe { RW_ORIG_DROPS } == 0, "C19 the foreign side never releases the caller's own waker");
+    assert!(unsafe { RW_DATA_OK }, "C19 the waker's functions are only called with the data word of the original or of one of its clones");
     drop(waker);
-    assert!(unsafe { RW_DROPS } == unsafe { RW_CLONES } + 1, "C19 the caller's own waker is released by the caller only");
+    assert!(unsafe { RW_ORIG_DROPS } == 1 && unsafe { RW_DROPS } == unsafe { RW_CLONES }, "C19 the caller's own waker is released by the caller only, once");
     kani::cover!(data == 0 && by_value, "null data word, wake by value");
-    kani::cover!(data != 0 && !by_value, "non-null data word, drop");
+    kani::cover!(data == CL && !by_value, "clone has the null data word, drop");
 }
 //@ prefix=p_retained kind=property clause=wakers retained after the poll returned keep working and release their clone exactly once; nothing touches the original after all of them are gone
 #[kani::proof]
@@ -260,9 +267,9 @@ fn b_tree_three() {
         let f1 = w.clone();
         let f2 = f1.clone();   // shares f1's record
         let f3 = w.clone();    // separate record
-        assert!(count(&keep) == 4, "C19 one clone of the original per distinct record");
-        if rev { end(f3, h3, &mut expected); end(f2, h2, &mut expected); assert!(count(&keep) == 3, "C19 the shared record still holds its clone while f1 lives"); end(f1, h1, &mut expected); }
-        else { end(f1, h1, &mut expected); end(f2, h2, &mut expected); assert!(count(&keep) == 3, "C19 the shared record's clone is released when its last waker goes"); end(f3, h3, &mut expected); }
+        assert!(count(&keep) >= 3, "C19 the original is kept alive while owned wakers exist (how many clones the records share is the implementation's business)");
+        if rev { end(f3, h3, &mut expected); end(f2, h2, &mut expected); assert!(count(&keep) >= 3, "C19 a surviving waker still holds a clone of the original"); end(f1, h1, &mut expected); }
+        else { end(f1, h1, &mut expected); end(f2, h2, &mut expected); assert!(count(&keep) >= 3, "C19 a surviving waker still holds a clone of the original"); end(f3, h3, &mut expected); }
         assert!(wakes() == expected, "C19 the original is woken exactly once per wake");
         assert!(count(&keep) == 2, "C19 with no foreign-side waker left the count is back to its value at poll entry");
     });
